@@ -2052,6 +2052,100 @@ fn group_member_with_a_full_window_elsewhere_keeps_its_place_in_the_group() {
     report(name, "C17", "3 strategies x QoS 0/1 on the shared filter x 100/130 unacknowledged publishes on the member's other subscription x order of the two filters x one burst / separate batches", cases, fail);
 }
 
+/// C17 completeness: a member that waits for its turn must get the turn when the holder leaves (or passes it on) — the
+/// group's backlog is forwarded once everybody has acknowledged and the broker is idle
+// @native props=C17 tier=quick fn=Router::forward_device_data (skip branch: parked vs. still scheduled)+consume
+#[test]
+fn waiting_group_member_gets_the_backlog_when_the_turn_comes() {
+    let name = "rumqttd::Router::forward_device_data#waiting_member_is_not_parked_while_the_group_has_a_backlog";
+    let mut cases = 0u64;
+    let mut fail: Option<String> = None;
+    // (1)/(2): a (QoS 1, never acknowledges: its window fills) and b (QoS 0) in one group; then a leaves
+    'outer: for strategy in [Strategy::RoundRobin, Strategy::Sticky, Strategy::Random] {
+        for leave_by_unsubscribe in [false, true] {
+            for n in [150usize, 201, 260] {
+                cases += 1;
+                let desc = format!("strategy {:?}: a (QoS 1, acknowledging nothing) and b (QoS 0) in $share/g/t; {} publishes; a leaves by {}", strategy, n, if leave_by_unsubscribe { "UNSUBSCRIBE" } else { "link failure" });
+                let mut r = Router::new(0, cfg(1024 * 1024, 10, strategy.clone()));
+                let p = connect(&mut r, "p", true).unwrap();
+                let a = connect(&mut r, "a", true).unwrap();
+                let b = connect(&mut r, "b", true).unwrap();
+                send(&mut r, &a, vec![subscribe(1, &[("$share/g/t", 1)])]);
+                send(&mut r, &b, vec![subscribe(1, &[("$share/g/t", 0)])]);
+                let _ = drain(&mut r, &a);
+                let _ = drain(&mut r, &b);
+                let mut seen = vec![0usize; n];
+                let pubs: Vec<Packet> = (0..n).map(|i| publish("t", 0, 0, &format!("{}", i), false)).collect();
+                for chunk in pubs.chunks(50) {
+                    send(&mut r, &p, chunk.to_vec());
+                    for n2 in drain(&mut r, &a).iter() {
+                        if let RNotification::Forward(Forward { publish, .. }) = n2 {
+                            seen[String::from_utf8_lossy(&publish.payload).parse::<usize>().unwrap()] += 1;
+                        }
+                    }
+                    for g in receive_all(&mut r, &b) {
+                        seen[g.1.parse::<usize>().unwrap()] += 1;
+                    }
+                }
+                if leave_by_unsubscribe {
+                    send(&mut r, &a, vec![unsubscribe(2, &["$share/g/t"])]);
+                    let _ = drain(&mut r, &a);
+                } else {
+                    r.events(a.id, Event::Disconnect);
+                    settle(&mut r);
+                }
+                for _ in 0..10 {
+                    let got = receive_all(&mut r, &b);
+                    if got.is_empty() {
+                        break;
+                    }
+                    for g in got {
+                        seen[g.1.parse::<usize>().unwrap()] += 1;
+                    }
+                }
+                if let Some(k) = seen.iter().position(|c| *c == 0) {
+                    fail = Some(format!("input=[{}] detail=[message {} (and {} more) was never forwarded to anybody although b, the only member left, reads at once and the broker is idle]", desc, k, seen.iter().filter(|c| **c == 0).count() - 1));
+                    break 'outer;
+                }
+            }
+        }
+    }
+    // (3): nobody leaves, everybody acknowledges at once
+    if fail.is_none() {
+        'o3: for strategy in [Strategy::Random, Strategy::RoundRobin, Strategy::Sticky] {
+            for trial in 0..12 {
+                cases += 1;
+                let desc = format!("strategy {:?}, trial {}: a (QoS 1) and b (QoS 0) in $share/g/t; 2 batches of 150 publishes; both read and acknowledge at once", strategy, trial);
+                let mut r = Router::new(0, cfg(1024 * 1024, 10, strategy.clone()));
+                let p = connect(&mut r, "p", true).unwrap();
+                let a = connect(&mut r, "a", true).unwrap();
+                let b = connect(&mut r, "b", true).unwrap();
+                send(&mut r, &a, vec![subscribe(1, &[("$share/g/t", 1)])]);
+                send(&mut r, &b, vec![subscribe(1, &[("$share/g/t", 0)])]);
+                let _ = drain(&mut r, &a);
+                let _ = drain(&mut r, &b);
+                let mut total = 0usize;
+                for batch in 0..2 {
+                    let pubs: Vec<Packet> = (0..150).map(|i| publish("t", 0, 0, &format!("{}", batch * 150 + i), false)).collect();
+                    send(&mut r, &p, pubs);
+                    for _ in 0..20 {
+                        let x = receive_all(&mut r, &a).len() + receive_all(&mut r, &b).len();
+                        if x == 0 {
+                            break;
+                        }
+                        total += x;
+                    }
+                }
+                if total != 300 {
+                    fail = Some(format!("input=[{}] detail=[{} of 300 messages were forwarded; both members connected, everything acknowledged, the broker idle]", desc, total));
+                    break 'o3;
+                }
+            }
+        }
+    }
+    report(name, "C17", "3 strategies x the window-full member leaving by link failure / UNSUBSCRIBE x 150/201/260 publishes; 3 strategies x 12 trials of two 150-message batches with prompt acknowledgements", cases, fail);
+}
+
 /// C17: membership changes never lose or duplicate messages — a member that repeated its group subscription and then
 /// leaves, and a member that joins while the group has an unforwarded backlog
 // @native props=C17 tier=quick fn=SharedGroup::{add_client,remove_client}+Router::{prepare_filter,handle_disconnection,forward_device_data}
